@@ -1,3 +1,3 @@
--- This module serves as the root of the `Gofasta` library.
--- Import modules here that should be built as part of the library.
-import Gofasta.Basic
+import Gofasta.Gen.Tables
+import Gofasta.Base.Iupac
+import Gofasta.Model.Encoding
